@@ -81,8 +81,8 @@ def t_macro_nested(size, i, j):
     return ["circuit", ["register", "r", size],
             ["macro", "mz", ["sequential_block", ["gate", "n0"], ["gate", "n1", 0.25]]],
             ["macro", "ma", "x", ["sequential_block", ["gate", "g1", "x"], ["gate", "n0"]]],
-            ["macro", "mb", "y", "z", ["sequential_block", ["gate", "ma", "y"], ["gate", "mz"],
-                                       ["parallel_block", ["gate", "ma", "z"], ["gate", "n1", 0.5]]]],
+            ["macro", "mb", "x", "z", ["sequential_block", ["gate", "ma", "z"], ["gate", "mz"],
+                                       ["parallel_block", ["gate", "ma", "x"], ["gate", "n1", 0.5]], ["gate", "g1", "x"]]],
             ["loop", 2, ["sequential_block", ["gate", "mb", AI("r", i), AI("r", j)]]],
             ["subcircuit_block", "", ["gate", "mb", AI("r", j), AI("r", i)]]]
 
@@ -192,12 +192,12 @@ def t_subcount(size, c, i):
     return ["circuit", ["register", "r", size], ["subcircuit_block", c, ["gate", "g1", AI("r", i)]], ["subcircuit_block", "", ["gate", "n0"]]]
 
 
-@template(size=((2, 3), (2, 4)), a=((1, 2), (0, 3)), b=((-1, 1), (-2, 2)), c=((-2, -1), (-3, -1)), i=((0, 1), (-1, 2)))
-def t_slice_rev(size, a, b, c, i):
-    """reversed (negative-step) slices running down to a literal and to a let-valued stop (0 and -1 included; the
+@template(size=((2, 3), (2, 4)), a=((1, 2), (0, 3)), e=((-1, 1), (-2, 2)), c=((-2, -1), (-3, -1)), i=((0, 1), (-1, 2)))
+def t_slice_rev(size, a, e, c, i):
+    """reversed (negative-step) slices running down to a literal and to a let-valued stop e (0 and -1 included; the
     let-bounded alias is declared but not indexed, so that overriding the let cannot make every program invalid),
     and an empty alias that is declared but never indexed"""
-    return ["circuit", ["let", "lb", b], ["register", "r", size], ["map", "s", "r", a, b, c], ["map", "e", "r", a, a, None],
+    return ["circuit", ["let", "lb", e], ["register", "r", size], ["map", "s", "r", a, e, c], ["map", "em", "r", a, a, None],
             ["map", "t", "r", a, "lb", c], ["gate", "g1", AI("s", i)], ["gate", "h1", AI("r", a), "lb"]]
 
 
